@@ -45,8 +45,9 @@ CHECKS = {
     "C08": (
         "twin execution of generated histories (plain vs with generated redundant updates and reads) with bit-identical snapshot comparison; noisy vs plain generated backtests",
         "Two identical trees execute the same generated history, one with extra generated update calls and property reads; snapshots must be bit-identical after every step, past rows frozen, "
-        "no accessor beyond now; plus grammar backtests with and without a noise algo.",
-        "Noise is placed between operations issued with default update flags (never inside an update=False batch).",
+        "no accessor beyond now; plus grammar backtests with and without a noise algo; plus histories with deferred operations (update=False) and generated placements of the closing "
+        "update, where the rows of earlier dates (read from the raw arrays) must never change once the clock has moved.",
+        "Noise is placed between operations issued with default update flags (never inside an update=False batch); under deferred operations only the append-only clause is judged.",
         "5/C08",
     ),
     "C10": (
@@ -101,7 +102,8 @@ CHECKS.update(
         "C04": (
             "metamorphic pairs of whole runs: a generated backtest vs the same backtest with every value dated after a generated cut perturbed; bit-identical prefix oracle",
             "Generated backtests over the whole stock-algo grammar (look-back/lag algos, nested trees, bid/offer, signals, dated weights, stat frames) are run twice, the second time with all "
-            "supplied values after a generated cut date perturbed; all node histories and transactions up to the cut must be bit-identical.",
+            "supplied values after a generated cut date perturbed (prices, listings, gaps, spreads, signals, weights, statistics, coupons, holding costs, notional schedules, unit-risk tables; "
+            "families for fixed-income books, HedgeRisks trees, TargetVol and PTE_Rebalance); all node histories and transactions up to the cut must be bit-identical.",
             "Only stock algos are quantified; index and columns are not perturbed; both runs use the same RNG seeds.",
             "5/C04",
         ),
@@ -114,7 +116,7 @@ CHECKS.update(
             "differential pairs of whole runs: every sub-strategy of a generated nested backtest vs a stand-alone Backtest of the same definition (Hypothesis-generated)",
             "Generated nested backtests with deterministic calendar-gated children and arbitrary parents/allocation schedules; each sub-strategy's index is compared date for date with the "
             "index of a stand-alone backtest of the same definition, and with the column the parent sees.",
-            "Children use no RNG algos and a calendar gate (the statement's quantifier); bankrupt stand-alone runs are discarded.",
+            "Children use no RNG algos and a calendar gate (the statement's quantifier); definitions that go bankrupt (leveraged / short children) are compared too.",
             "5/C09",
         ),
     }
@@ -137,7 +139,8 @@ CHECKS.update(
         "C11": (
             "Hypothesis-generated construction/run schedules over one template with deep fingerprint and differential oracles; same spec across fresh processes with different PYTHONHASHSEED",
             "Generated schedules (1-3 backtests from one template, any construction/run order, repeated run()) with deep fingerprints of template and input frames and a differential "
-            "comparison against a lone backtest; generated specs re-executed in fresh interpreter processes under several hash seeds must give bit-identical histories.",
+            "comparison against a lone backtest (grammar, fixed-income, unit-risk, close/roll-table and TargetVol/PTE families); benchmark_random must leave its template alone; generated specs "
+            "re-executed in fresh interpreter processes under several hash seeds must give bit-identical histories.",
             "random / numpy.random are seeded from the spec immediately before each run; the harness owns process creation.",
             "5/C11",
         ),
@@ -163,7 +166,7 @@ CHECKS.update(
             "Hypothesis-generated finished backtests with every report recomputed independently from node histories; round-trip of the transaction list through ReplayTransactions",
             "For generated finished backtests (flat/nested, shared tickers, multipliers, no-trade and no-security runs, shorts, spreads) each report is recomputed from the node histories; the "
             "transaction list of zero-commission runs is replayed into a fresh flat strategy and must reproduce positions and values.",
-            "Replay preconditions as in the repository's replay tests; offsetting same-date trades (zero net quantity) are discarded from the replay relation.",
+            "Replay preconditions as in the repository's replay tests; same-date trades netting to zero in one ticker are an open finding (F29: predicate + witness in known_findings.json), counted and excluded.",
             "5/C18",
         ),
     }
